@@ -9,6 +9,7 @@ import (
 	"fmt"
 	"go/types"
 	"os"
+	"os/exec"
 	"path/filepath"
 	"sort"
 	"strings"
@@ -912,3 +913,74 @@ func init() {
 	staticBackends["params"] = (*Verifier).fpParams
 	staticBackends["freshdefaults"] = (*Verifier).fpFreshDefaults
 }
+
+// ---- route K: constant evaluation of package-level table invariants -----------------------------
+// The invariant is compiled to Go and evaluated once in the package (after its init functions ran)
+// by an in-package test injected with -overlay.
+func (v *Verifier) fpGlobalInv() (map[string]any, []staticProblem) {
+	byPkg := map[string][]*GlobalInv{}
+	for _, gi := range v.contracts.Globals {
+		byPkg[gi.Pkg] = append(byPkg[gi.Pkg], gi)
+	}
+	var probs []staticProblem
+	obl, ok := 0, 0
+	var samples []string
+	for pkg, gis := range byPkg {
+		var anyFn *ssa.Function
+		for k, fn := range v.funcs {
+			if strings.HasPrefix(k, pkg+":") {
+				anyFn = fn
+				break
+			}
+		}
+		if anyFn == nil {
+			probs = append(probs, staticProblem{Key: pkg, Msg: "no function found in package " + pkg})
+			continue
+		}
+		var body strings.Builder
+		var defs []string
+		seenDef := map[string]bool{}
+		for i, gi := range gis {
+			obl++
+			g := &goCompiler{v: v, fn: anyFn, params: map[string]string{}, defs: seenDef, bound: map[string]bool{}}
+			src := g.exprGlobal(gi.Clause.Expr)
+			if g.err != nil {
+				probs = append(probs, staticProblem{Key: fmt.Sprintf("%s.%s#%d", shortPkg(pkg), gi.Name, i), Msg: "cannot compile global invariant: " + g.err.Error()})
+				continue
+			}
+			defs = append(defs, g.defSrc...)
+			fmt.Fprintf(&body, "\tif %s {\n\t\tfmt.Println(\"GOVC-GLOBALINV-OK %d\")\n\t} else {\n\t\tfmt.Println(\"GOVC-GLOBALINV-FAIL %d\")\n\t}\n", src, i, i)
+		}
+		src := fmt.Sprintf("package %s\n\nimport (\n\t\"fmt\"\n\t\"testing\"\n)\n%s\n%s\n\nfunc TestGovcGlobalInv(t *testing.T) {\n%s}\n", anyFn.Pkg.Pkg.Name(), replayHelpers, strings.Join(defs, "\n"), body.String())
+		dir := filepath.Join("/verif", "out", "globalinv")
+		os.MkdirAll(dir, 0o755)
+		name := strings.ReplaceAll(shortPkg(pkg), "/", "_")
+		testPath := filepath.Join(dir, name+"_globalinv_test.go")
+		os.WriteFile(testPath, []byte(src), 0o644)
+		rel := strings.TrimPrefix(strings.TrimPrefix(pkg, v.modPath), "/")
+		ov := map[string]map[string]string{"Replace": {filepath.Join(v.root, rel, "zz_govc_globalinv_test.go"): testPath}}
+		ovb, _ := json.Marshal(ov)
+		ovPath := filepath.Join(dir, name+"_overlay.json")
+		os.WriteFile(ovPath, ovb, 0o644)
+		cmd := exec.Command("go", "test", "-overlay", ovPath, "-vet=off", "-count=1", "-timeout", "120s", "-run", "^TestGovcGlobalInv$", "-v", "./"+rel)
+		cmd.Dir = v.root
+		out, _ := cmd.CombinedOutput()
+		for i, gi := range gis {
+			switch {
+			case strings.Contains(string(out), fmt.Sprintf("GOVC-GLOBALINV-OK %d\n", i)):
+				ok++
+				if len(samples) < 4 {
+					samples = append(samples, shortPkg(pkg)+"."+gi.Name+": "+gi.Clause.Src+" holds after init (evaluated)")
+				}
+			case strings.Contains(string(out), fmt.Sprintf("GOVC-GLOBALINV-FAIL %d\n", i)):
+				probs = append(probs, staticProblem{Key: fmt.Sprintf("%s.%s#%d", shortPkg(pkg), gi.Name, i), Msg: "package-level table invariant does not hold after init: " + gi.Clause.Src})
+			default:
+				probs = append(probs, staticProblem{Key: fmt.Sprintf("%s.%s#%d", shortPkg(pkg), gi.Name, i), Msg: "global invariant test did not run: " + lastLines(string(out), 8)})
+			}
+		}
+	}
+	return map[string]any{"name": "globalinv", "obligations": obl, "discharged": ok, "samples": samples,
+		"statement": "invariants of package-level lookup tables assumed by function contracts hold after package initialisation (decided by executing the compiled invariant once)"}, probs
+}
+
+func init() { staticBackends["globalinv"] = (*Verifier).fpGlobalInv }
